@@ -130,6 +130,11 @@ SplitStrict(e) ==
        THEN /\ Prod(e.parts) = e.n
             /\ \A i \in 1..e.nfac : Gt(e.parts[i], One)
             /\ e.parts[Len(e.parts)] # Zero
+            \* "separates p unless caught at the same step": the values are cumulative products in which the
+            \* known prime e.primes[j] enters at position e.pos[j]; a returned factor may only combine primes
+            \* that entered at the same position
+            /\ \A k \in 1..e.nfac : \A i, j \in 1..Len(e.primes) :
+                  (Divides(e.primes[i], e.parts[k]) /\ Divides(e.primes[j], e.parts[k])) => e.pos[i] = e.pos[j]
        ELSE PartsOK(e.n, e.parts)
 \* documented contract of gcd_factors: product of the factors = gcd(n, last) / gcd(n, first)
 SplitModel(e) ==
